@@ -112,6 +112,7 @@ def new_explorer():
 def start(I, ex, prefix="s0_"):
     S = qm.State(I, prefix)
     I.ghost["S"] = S
+    I.ghost["S_pre"] = S.copy()          # for the guarantee obligations of the segment (see finish)
     qm.assume_inv(I, S)
     w = qm.make_workq(I, ex.workq_cls)
     w.fields["count"] = SInt(S["count"])
@@ -124,6 +125,7 @@ def make_plugin(I, ex, w, name="k"):
     I.inputs[str(k)] = k
     I.assume(k != 0)
     p = PObj(ex.plugin_cls, {"running_jobs": qm.IdDict(conn=k), "workq": w})
+    I.ghost["own_conn"] = k              # the connection whose request this segment serves
     return p, k
 
 
@@ -131,6 +133,13 @@ def finish(I, w, prefix="inv", skip=()):
     S = st(I)
     S["count"] = z3_of(w.fields["count"])
     qm.oblige_inv(I, S, prefix, skip)
+    guarantees(I, S, prefix)
+
+
+def guarantees(I, S, prefix):
+    """see qmodel.guarantee_clauses"""
+    for label, f in qm.guarantee_clauses(I, S):
+        I.oblige(f"{prefix}.{label}", f)
 
 
 def nowhere(I, S, j):
@@ -173,6 +182,7 @@ def seg_pushjob_new(chk):
         I.assume(z3.Not(z3.Select(S["id_has"], S["count"] + 1)))
         out = ex.run_function(I, fn, [w, SRef("job", j)])
         I.oblige("no_raise", out.returned, meta=note_exc(out))
+        I.ghost["S_pre"] = None        # half of push()'s segment: the guarantees are obligations of jobs.workq.push
         finish(I, w)
 
     chk.prove("jobs.workq.pushjob[new job]", harness, ex, targets=[fn], replay=replay_history)
@@ -305,12 +315,38 @@ def _seg_qpull(chk, which):
             # running_jobs of this connection is touched only by this connection's own requests
             I2.assume(z3.Select(S1["R_has"], k) == z3.Select(old["R_has"], k))
             I2.assume(z3.Select(S1["R_val"], k) == z3.Select(old["R_val"], k))
+            # RELY of the suspended puller = closure of the guarantees G1, G2, G3, G5 of all other segments over
+            # the states between `old` (Inv held there) and S1; this connection serves one request at a time,
+            # so no other segment ran for connection k
+            vj = qm.valid_job
+            I2.assume(Forall(["job"], lambda x: z3.Implies(z3.And(vj(S1, x), z3.Select(S1["conn"], x) == k),
+                                                           z3.And(vj(old, x), z3.Select(old["conn"], x) == k)), "rely_G1"))
+            I2.assume(Forall(["job"], lambda x: z3.Implies(vj(old, x), z3.And(
+                vj(S1, x), z3.Implies(z3.Select(old["j_done"], x), z3.Select(S1["j_done"], x)),
+                z3.Select(S1["j_jobid"], x) == z3.Select(old["j_jobid"], x),
+                z3.Implies(z3.Select(old["j_serial"], x) != 0, z3.Select(S1["j_serial"], x) == z3.Select(old["j_serial"], x)))), "rely_G2"))
+            # Inv(old), clause I9 (it held at the yield: segment A)
+            I2.assume(Forall(["job"], lambda x: z3.Implies(z3.And(vj(old, x), z3.Select(old["j_serial"], x) != 0, z3.Not(z3.Select(old["j_done"], x))),
+                                                           qm.known(old, x)), "I9_at_the_yield"))
+            I2.assume(Forall(["job"], lambda x: z3.Implies(z3.And(vj(old, x), z3.Select(old["j_serial"], x) == 0),
+                                                           z3.Select(old["conn"], x) == 0), "I11_at_the_yield"))
+            I2.ghost["S_pre"] = S1.copy()
+            I2.ghost["rely_old"] = old
             I2.ghost["segment"] = which
             if which == "B'":
                 raise qm.SymRaise(ExcVal(GREENLET_EXIT, []))
             # contract of AsyncResult.get: returns once the result is ready, with its value
             I2.assume(z3.Select(S1["a_ready"], a.z))
-            return SRef("job", z3.Select(S1["a_value"], a.z))
+            jv = z3.Select(S1["a_value"], a.z)
+            # G3 + G2: the job was unfinished when it was handed over, hence unfinished at the yield if it existed
+            pushed_before = z3.And(vj(old, jv), z3.Select(old["j_serial"], jv) != 0)
+            I2.assume(z3.Implies(pushed_before, z3.Not(z3.Select(old["j_done"], jv))))
+            # G5 + G2: pushed for the first time during the yield => every earlier job of that id is finished by now
+            I2.assume(Forall(["job"], lambda y: z3.Implies(
+                z3.And(z3.Not(pushed_before), vj(old, y), z3.Select(old["j_serial"], y) != 0,
+                       z3.Select(old["j_jobid"], y) == z3.Select(S1["j_jobid"], jv)), z3.Select(S1["j_done"], y)), "rely_G5"))
+            I2.hint("job", jv)
+            return SRef("job", jv)
         I.ghost["on_yield"] = on_yield
         out = ex.run_function(I, fn, [plugin], {"channels": channels})
         seg = I.ghost["segment"]
@@ -324,12 +360,9 @@ def _seg_qpull(chk, which):
             finish(I, w, "segB'.inv_at_exception_exit")
             return
         I.oblige(f"seg{seg}.no_raise", out.returned, meta=note_exc(out))
-        # NOT PROVED for segment B: clause I4a (an unfinished job attributed to a connection is in
-        # that connection's running_jobs).  `running_jobs[j.jobid] = j` could overwrite the entry
-        # of another unfinished job with the same id held by the same connection; excluding that
-        # state needs an ordering invariant over job creation that was not found.  The clause is
-        # left to the bounded history search and listed in the evidence.
-        finish(I, w, f"seg{seg}.inv", skip=("I4a_conn_has_job",) if seg == "B" else ())
+        # clause I4a after segment B (`running_jobs[j.jobid] = j` must not overwrite the entry of another unfinished
+        # job of this connection) follows from the rely assumed at the yield (see on_yield)
+        finish(I, w, f"seg{seg}.inv")
 
     chk.prove(f"qserve.QPlugin.rpc_qpull[{which}]", harness, ex, targets=[fn, ex.function(JOBS, "workq.pop")],
               replay=replay_history)
@@ -470,7 +503,7 @@ def run(chk):
         "the plugin object of a connection is not used after shutdown() (handle_client ends)",
         "automatically assigned integer ids (serials) do not collide with explicit ids in use (mwlib uses string ids)",
         "job ids are abstracted to integers (0 = None); channels to integers",
-        "NOT PROVED: invariant clause I4a after segment B of rpc_qpull (see the comment in contracts/c16.py); covered by the bounded history search only",
+        "rely of a puller suspended in AsyncResult.get = closure of the guarantees G1, G2, G5 (obligations of every segment and invariants of every state-modifying loop) + 'a connection serves one request at a time' + 'the handed job was unfinished at hand-over' (pushjob contract, call-site preconditions verified in C17)",
     ]
 
 
